@@ -107,7 +107,10 @@ def _replay_kernels(r):
         n_len = nq * nb + nq * (off + 1)
         for _ in range(6):
             f = numpy.zeros((nq, nb + 1))
-            f[:, 1:] = rng.dirichlet(numpy.ones(nb), size=nq)
+            if r.get("bin0", True):
+                f[:, :] = rng.dirichlet(numpy.ones(nb + 1), size=nq)
+            else:
+                f[:, 1:] = rng.dirichlet(numpy.ones(nb), size=nq)
             A, Ac, B = numpy.empty((nq, nq, n_len)), numpy.empty((nq, nq, n_len)), numpy.empty((tmax + 1, n_len))
             tt._p_value_backgrounds(f, A, B, Ac, nq, nb, tmax, off)
             for nt in range(1, tmax + 1):
@@ -119,7 +122,7 @@ def _replay_kernels(r):
                         for cc in cols:
                             new = {}
                             for sc, p in pmf.items():
-                                for x in range(1, nb + 1):
+                                for x in range(0, nb + 1):
                                     new[sc + x] = new.get(sc + x, 0) + p * f[cc, x]
                             pmf = new
                         prod *= sum(p for sc, p in pmf.items() if sc <= sidx)
@@ -221,10 +224,13 @@ def worker(cfg):
                     v = core.Real("f%d_%d" % (i, l))
                     ctx.assume(v > 0)
                     f[i, l] = v
-                f[i, 0] = 0
-                ctx.assume(s_sum(list(f[i, 1:])) == 1)
+                lo = 0
+                if not cfg.get("bin0", True):      # no target column falls into the lowest score bin
+                    f[i, 0] = 0
+                    lo = 1
+                ctx.assume(s_sum(list(f[i, lo:])) == 1)
                 pl = {(): Fraction(1)}
-                for l in range(1, nb):
+                for l in range(lo, nb):
                     pl[(("f%d_%d" % (i, l), 1),)] = Fraction(-1)
                 subst["f%d_%d" % (i, nb)] = pl
             A = numpy_s.empty((nq, nq, n_len), dtype="float64")        # uninitialised scratch
@@ -245,7 +251,7 @@ def worker(cfg):
                     for cc in cols:
                         new = {}
                         for sc, p in pmf.items():
-                            for x in range(1, nb + 1):
+                            for x in range(0, nb + 1):
                                 new[sc + x] = new.get(sc + x, 0) + p * f[cc, x]
                         pmf = new
                     cdfs.append(pmf)
@@ -631,6 +637,7 @@ def configs(tier):
     q = tier == "quick"
     cf = [dict(kind="null", nq=1, n_bins=2, t_max=2, offset=1), dict(kind="null", nq=2, n_bins=2, t_max=2, offset=1), dict(kind="null", nq=2, n_bins=2, t_max=3, offset=0),
           dict(kind="null", nq=2, n_bins=2, t_max=1, offset=1), dict(kind="null", nq=3, n_bins=2, t_max=2, offset=0), dict(kind="null", nq=3, n_bins=2, t_max=1, offset=1),
+          dict(kind="null", nq=2, n_bins=2, t_max=2, offset=1, bin0=False), dict(kind="null", nq=3, n_bins=2, t_max=2, offset=0, bin0=False),
           dict(kind="hash", n_target_bins=5, n_score_bins=3, n_target_bins_real=100, n_score_bins_real=50),
           dict(kind="pvalues", nq=1, T_lens=[1, 2], n_scores=3, offset=0, gmax=2), dict(kind="pvalues", nq=2, T_lens=[2], n_scores=4, offset=1, gmax=1),
           dict(kind="pvalues", nq=2, T_lens=[1, 3], n_scores=4, offset=0, gmax=2), dict(kind="merge", n=2), dict(kind="pairmax", n=4)]
@@ -660,7 +667,7 @@ def main(tier, seed):
     rep.bounds = {"null": sorted({(c["nq"], c["n_bins"], c["t_max"], c["offset"]) for c in cf if c["kind"] == "null"}),
                   "pvalues": [(c["nq"], c["T_lens"], c["offset"]) for c in cf if c["kind"] == "pvalues"], "merge": "2 target pairs, all fields symbolic"}
     rep.assumptions = ["_integer_distances_and_histogram / _binned_median (float distances, sqrt, floor binning) are outside the claim, hence also 'self-match at offset 0' and the monotonicity clause; column hashing (numpy.unique) outside",
-                       "histogram entries are strictly positive and each row sums to 1 (zero entries only skip work in the kernel)",
+                       "histogram entries are strictly positive and each row sums to 1 (zero entries only skip work in the kernel); bin0=False configurations put no mass into the lowest score bin",
                        "polynomial identities are decided by an exact polynomial normal form (symtm/poly.py), z3 only on residuals",
                        "tie-break between equally scoring alignments is not fixed by the statement: any alignment attaining the maximum is accepted"]
     rep.absorb(harness.run_configs("checks.C14", "worker", cf))
